@@ -149,13 +149,13 @@ def run(ctx, rep):
                   "got %s" % {k: sorted(x) for k, x in got.items()})
         rep.check(default_err, "R2", key(f, None, "an unknown order type is refused"), f)
 
-    def guards_of(fname, specs):
+    def guards_of(fname, specs, also_accounted=()):
         """specs: [(description, guard as source text)]; the guard must exist and the edge on which it holds must
         lead to a refusal (through further conjuncts only)"""
         f = prog.own_method("OrderValidation", fname)
         cfgf = ctx.cfg(f)
         conds = [n for n in cfgf.live_nodes() if n.kind == "cond"]
-        accounted = set()
+        accounted = set(also_accounted)
         all_errs = {x.id for x in cfgf.live_nodes() if any(call_name(c) == "_on_error" for c in calls_in(x))}
         for desc, src in specs:
             text, pol = gp(src)
@@ -186,31 +186,54 @@ def run(ctx, rep):
         ("liability is None", "order.order_type.liability is None"),
         ("liability <= 0", "order.order_type.liability <= 0"),
         ("more than two decimals", "order.order_type.liability != round(order.order_type.liability, 2)")])
-    guards_of("_validate_betfair_price", [
-        ("price is None", "order.order_type.price is None"),
-        ("CLASSIC price not on the ladder", "utils.as_dec(order.order_type.price) not in utils.PRICES"),
-        ("FINEST price not on the ladder", "utils.as_dec(order.order_type.price) not in utils.FINEST_PRICES"),
-        ("LINE price not in the market's range", "utils.as_dec(order.order_type.price) not in prices")])
+    # per ladder definition: the price is tested against that definition's own ladder (however the ladder reaches
+    # the test - three separate tests, or one test on a ladder picked in the branches) and refused when not on it
+    from sa.kinds import folded_conds
+    fpr = prog.own_method("OrderValidation", "_validate_betfair_price")
+    cfgpr = ctx.cfg(fpr)
+    line_ladder = ("utils.make_line_prices(order.order_type.line_range_info.min_unit_value, "
+                   "order.order_type.line_range_info.max_unit_value, order.order_type.line_range_info.interval)")
+    want_ladder = {"CLASSIC": {"utils.PRICES"}, "FINEST": {"utils.FINEST_PRICES"},
+                   "LINE_RANGE": {line_ladder, "tuple(%s)" % line_ladder, "list(%s)" % line_ladder, "prices"}}
+    errs_pr = [x.id for x in cfgpr.live_nodes() if any(call_name(c) == "_on_error" for c in calls_in(x))]
+    lad = {}
+    ladder_refusals = set()
+    for D in ("CLASSIC", "FINEST", "LINE_RANGE"):
+        def evD(e, D=D):
+            t = utext(e)
+            if t == "order.order_type.price is None":
+                return False
+            if t.startswith("order.order_type.price_ladder_definition == "):
+                return t.endswith("'%s'" % D)
+            return None
+        tests = [(n, t) for n, t in folded_conds(cfgpr, fpr, evD) if t.startswith("utils.as_dec(order.order_type.price) in ")]
+        ok_D = len(tests) == 1
+        if ok_D:
+            n, t = tests[0]
+            lad[D] = t.split(" in ", 1)[1]
+            off = [mm for l, mm in n.succ if l == "F"][0]
+            ok_D = lad[D] in want_ladder[D] and (off in errs_pr or cfgpr.all_paths_pass(off, cfgpr.exit, errs_pr))
+            ladder_refusals |= {x for x in errs_pr if x == off or x in cfgpr.reachable(off, [y for y in errs_pr if y != x])}
+        rep.check(ok_D, "R2", key(fpr, None, "guard: %s price not on the %s" % (
+            D if D != "LINE_RANGE" else "LINE", "ladder" if D != "LINE_RANGE" else "market's range")), fpr, None, str(lad.get(D)))
+    guards_of("_validate_betfair_price", [("price is None", "order.order_type.price is None")], ladder_refusals)
     guards_of("_validate_betdaq_price", [
         ("price is None", "order.order_type.price is None"),
         ("price not on the Betdaq ladder", "utils.as_dec(order.order_type.price) not in utils.BETDAQ_PRICES")])
-    # ladder chosen by the order's price ladder definition
+    # the LINE_RANGE ladder named `prices` above must be the one built from the order's own range
     f = prog.own_method("OrderValidation", "_validate_betfair_price")
-    cfgf = ctx.cfg(f)
-    lad = {}
-    for n in cfgf.live_nodes():
-        if n.kind == "cond" and utext(n.exprs[0]).startswith("utils.as_dec(order.order_type.price) in "):
-            gs = [t for t, pol in [(utext(g.exprs[0]), pol) for g, pol in cfgf.guards(n.id)] if pol and "price_ladder_definition" in t]
-            lad[utext(n.exprs[0]).split(" in ")[1]] = gs[0].split("== ")[1] if gs else None
-    rep.check(lad == {"utils.PRICES": "'CLASSIC'", "utils.FINEST_PRICES": "'FINEST'", "prices": "'LINE_RANGE'"}, "R2",
+    if lad.get("LINE_RANGE") == "prices":
+        lp = [s_ for s_ in walk_nodes(f.node.body, ast.Assign) if utext(s_.targets[0]) == "prices"]
+        lpv = lp[0].value if len(lp) == 1 else None
+        if isinstance(lpv, ast.Call) and isinstance(lpv.func, ast.Name) and lpv.func.id in ("tuple", "list", "frozenset", "set") and len(lpv.args) == 1:
+            lpv = lpv.args[0]
+        rep.check(lpv is not None and " ".join(utext(lpv).split()) == line_ladder,
+                  "R2", key(f, None, "the line ladder is built from the market's own range and interval"), f)
+    else:
+        rep.check(lad.get("LINE_RANGE") in want_ladder["LINE_RANGE"], "R2",
+                  key(f, None, "the line ladder is built from the market's own range and interval"), f, None, str(lad.get("LINE_RANGE")))
+    rep.check({k: v for k, v in lad.items() if k != "LINE_RANGE"} == {"CLASSIC": "utils.PRICES", "FINEST": "utils.FINEST_PRICES"}, "R2",
               key(f, None, "each ladder definition is checked against its own ladder"), f, None, str(lad))
-    lp = [s for s in walk_nodes(f.node.body, ast.Assign) if utext(s.targets[0]) == "prices"]
-    lpv = lp[0].value if len(lp) == 1 else None
-    if isinstance(lpv, ast.Call) and isinstance(lpv.func, ast.Name) and lpv.func.id in ("tuple", "list", "frozenset", "set") and len(lpv.args) == 1:
-        lpv = lpv.args[0]   # the same members in another container
-    rep.check(lpv is not None and " ".join(utext(lpv).split()) ==
-              "utils.make_line_prices(order.order_type.line_range_info.min_unit_value, order.order_type.line_range_info.max_unit_value, order.order_type.line_range_info.interval)",
-              "R2", key(f, None, "the line ladder is built from the market's own range and interval"), f)
     from rules.c01 import control_always_validates
     control_always_validates(ctx, rep, "R2")
     # minimum stake rules
